@@ -11,6 +11,7 @@ import NumbersModel.Lemmas.DateFmt
 import NumbersModel.Lemmas.Duration
 import NumbersModel.Lemmas.TrDateFmt
 import NumbersModel.Lemmas.TrDuration
+import NumbersModel.Lemmas.FormatDispatch
 import NumbersModel.Gen.Constants
 namespace NumbersModel.Props.C14
 open NumbersModel NumbersModel.Digits NumbersModel.DateFmt NumbersModel.Duration
@@ -311,6 +312,83 @@ example : dot (unitsBetween 4 16) (readNumbers (durationFormat 3661500 ⟨2, 4, 
 example : autoUnits 604800000 ⟨0, 2, 16, true⟩ = (16, 1) := by decide
 example : expandQuotes "it''s 'a' 'b c'".toList = "it's a b c".toList := by decide
 
+end NumbersModel.Props.C14
+
+/-! ## the format-selection glue on the date / duration path (`Model/FormatDispatch.lean`): `set_cell_formatting("datetime")`,
+`Formatting.__post_init__` (directive validation, the default format), `Cell.formatted_value` → `_date_format` /
+`_duration_format` — the C14 clauses stated once over `formatted_value` of a cell with its format record. -/
+namespace NumbersModel.Props.C14
+section Glue
+open NumbersModel NumbersModel.Digits NumbersModel.DateFmt NumbersModel.Duration NumbersModel.FormatDispatch
+
+/-- **set_then_display** (datetime) — what `set_cell_formatting("datetime", date_time_format=fmt)` stores on a date cell is what
+    `formatted_value` dispatches on: the text is `_decode_date_format` of the format held by the `Formatting` object (the one
+    passed, else the default `dd MMM yyyy HH:mm`) on the cell's date-time; a format with an undocumented directive is the
+    `TypeError` of `__post_init__`. -/
+theorem set_then_display_datetime (env : Env) (c : Cell) (hk : c.kind = .date) (hs : c.hasSeconds = true)
+    (hd : c.durationFmt = none) (dt : DateTime) (hdt : c.datetime = some dt) (a : FormatDispatch.Args) :
+    setThenDisplay env c "datetime".toList a =
+      (Formatting.make .datetime a >>= fun r => pure (decodeDateFormat env.isAlpha r.1.dateTimeFormat dt)) := by
+  rw [setThenDisplay_eq, set_datetime c hk hd hs a]
+  cases Formatting.make .datetime a <;> simp [bind, Except.bind, formatterOf, applyFormatter, hdt, pure, Except.pure]
+
+/-- **display_reads_back** (dates) — if the date cell displays `txt`, the format was accepted (only documented directives),
+    it is the one passed or the documented default, and for every way of writing it as well-formed parts (fields, literal
+    text, quoted text, `''`) the text is the concatenation of what the parts display (`scanner_concat`) — so every
+    directive theorem of this file applies to the text `formatted_value` returns. -/
+theorem display_reads_back_datetime (env : Env) (c : Cell) (hk : c.kind = .date) (hs : c.hasSeconds = true)
+    (hd : c.durationFmt = none) (dt : DateTime) (hdt : c.datetime = some dt) (a : FormatDispatch.Args) (txt : Text)
+    (h : setThenDisplay env c "datetime".toList a = .ok txt) :
+    let fmt := a.dateTimeFormat.getD "dd MMM yyyy HH:mm".toList
+    validFormat fmt = true ∧ txt = decodeDateFormat env.isAlpha fmt dt ∧
+    ∀ ps, WellFormed env.isAlpha ps → serialiseAll ps = fmt → txt = displayAll (decodeField dt) ps := by
+  intro fmt
+  rw [set_then_display_datetime env c hk hs hd dt hdt a] at h
+  cases hm : Formatting.make .datetime a with
+  | error e => simp [hm, bind, Except.bind] at h
+  | ok r =>
+    obtain ⟨f, p⟩ := r
+    simp only [hm, bind, Except.bind, pure, Except.pure] at h
+    injection h with h
+    obtain ⟨_, _, _, _, _, _, _, _, _, hfmt, _, _, hvalid, _, _⟩ := formatting_post_init .datetime a f p hm
+    have hf : f.dateTimeFormat = fmt := hfmt
+    refine ⟨hf ▸ hvalid rfl, by rw [← h, hf], fun ps hw hser => ?_⟩
+    rw [← h, hf, ← hser]
+    exact scanner_concat env.isAlpha dt ps hw
+
+/-- **display_reads_back** (durations) — a cell that carries a duration format record (read from a file; the API cannot set
+    one) and its `_double` displays `_duration_format` of that value under the record's style and units, whatever other
+    format ids it carries; read back unit by unit the text is the duration truncated to the smallest unit shown
+    (`duration_reads_back`), and exactly the duration with automatic units (`duration_reads_back_auto`). -/
+theorem display_reads_back_duration (env : Env) (c : Cell) (hk : c.kind ≠ .empty) (f : FormatDispatch.Fmt) (ms : Nat)
+    (hf : c.durationFmt = some f) (hms : c.doubleMs = some ms) :
+    formattedValue env c =
+      .ok (durationFormat ms ⟨f.durationStyle, f.durationLargest, f.durationSmallest, f.useAutoUnits⟩) ∧
+    (f.useAutoUnits = false → IsDurUnit f.durationLargest → IsDurUnit f.durationSmallest →
+      f.durationLargest ≤ f.durationSmallest →
+      dot (unitsBetween f.durationLargest f.durationSmallest)
+          (readNumbers (durationFormat ms ⟨f.durationStyle, f.durationLargest, f.durationSmallest, false⟩)) =
+        ms - ms % unitMsOf f.durationSmallest) ∧
+    (f.useAutoUnits = true → IsDurUnit f.durationSmallest →
+      let u := autoUnits ms ⟨f.durationStyle, f.durationLargest, f.durationSmallest, true⟩
+      dot (unitsBetween u.2 u.1)
+          (readNumbers (durationFormat ms ⟨f.durationStyle, f.durationLargest, f.durationSmallest, true⟩)) = ms) := by
+  refine ⟨?_, fun _ hl hs hle => duration_reads_back ms _ _ _ hl hs hle, fun _ hs => duration_reads_back_auto ms _ _ _ hs⟩
+  simp [formattedValue, selectFormatter, hk, hf, hms, applyFormatter, bind, Except.bind]
+
+/-- a date format stored with a custom uid: a uid the document's list does not hold is the `KeyError`; a custom date archive is
+    rendered by `_decode_date_format` on its pattern; any other custom archive displays `""` (with a warning). -/
+theorem date_dispatch (f : FormatDispatch.Fmt) :
+    (f.customUid = none → dateFormatter f = .ok (.date f.dateTimeFormat)) ∧
+    (f.customUid = some none → dateFormatter f = .error .KeyError) ∧
+    (∀ e, f.customUid = some (some e) →
+      dateFormatter f = .ok (if CustomFmt.FormatType.ofCode e.formatType = .customDate then .date e.archive.formatString
+                             else .dateUnexpected)) := by
+  refine ⟨fun h => by simp [dateFormatter, h], fun h => by simp [dateFormatter, h], fun e h => ?_⟩
+  simp only [dateFormatter, h]
+  split <;> rfl
+
+end Glue
 end NumbersModel.Props.C14
 
 /-! ## The same clauses over the definitions translated from the Python source
